@@ -145,12 +145,16 @@ pub fn check_bytes(ctx: &Ctx, data: &[u8]) -> Result<(), (Value, String)> {
     }
 }
 
+/// set by the libFuzzer entry point
+pub static FUZZING: std::sync::atomic::AtomicBool = std::sync::atomic::AtomicBool::new(false);
+
 pub const FUZZ_PROPS: &[&str] = &[
     "C01", "C02", "C03", "C04", "C05", "C06", "C07", "C08", "C09", "C10", "C11", "C12", "C13", "C15", "C16", "C17", "C18", "C19", "C20",
 ];
 
 /// libFuzzer entry point.
 pub fn fuzz_one(data: &[u8]) {
+    FUZZING.store(true, std::sync::atomic::Ordering::Relaxed);
     let fc = fuzz_ctx();
     if let Err((case, what)) = check_bytes(&fc.ctx, data) {
         fuzz_fail(fc, case, what);
@@ -212,7 +216,7 @@ pub fn run_fuzz(ctx: &Ctx, rep: &mut Report) {
         .arg(format!("-seed={}", ctx.seed.max(1)))
         // the campaign is sized by -runs; the wall-clock cap only bounds a badly loaded machine
         // (reaching it shortens the campaign, it is never a verdict)
-        .args(["-len_control=0", "-max_len=1500", "-print_final_stats=1", "-timeout=60", "-max_total_time=900"])
+        .args(["-len_control=0", "-max_len=1500", "-print_final_stats=1", "-timeout=240", "-max_total_time=900"])
         .arg(format!("-jobs={jobs}"))
         .arg(format!("-workers={jobs}"))
         .env("HV_FUZZ_PROP", &ctx.id)
@@ -257,6 +261,11 @@ pub fn run_fuzz(ctx: &Ctx, rep: &mut Report) {
         let mut found = false;
         if let Ok(rd) = std::fs::read_dir(&art) {
             for e in rd.flatten() {
+                if e.file_name().to_string_lossy().starts_with("slow-unit-") {
+                    // informational (a unit took longer than libFuzzer's report threshold)
+                    let _ = std::fs::remove_file(e.path());
+                    continue;
+                }
                 if let Ok(bytes) = std::fs::read(e.path()) {
                     if let Err((case, what)) = check_bytes(ctx, &bytes) {
                         rep.failures.push(crate::engine::Failure { case, what: format!("found by libFuzzer (artifact): {what}") });
